@@ -5,6 +5,10 @@ Helper lemmas for `Tahoe/Props/C31.lean`: what the client writes into its header
 import Tahoe.Http.Codec
 namespace Tahoe.Http
 
+set_option maxRecDepth 16384 in
+theorem b64_table_space : ∀ n, n < 64 → isPySpace (b64Char n).toNat = false := by decide
+
+set_option maxRecDepth 16384 in
 theorem b64_table : ∀ n, n < 64 →
     b64Val (b64Char n).toNat = some n ∧ (b64Char n).toNat ≠ 61 ∧ (b64Char n).toNat < 128 := by decide
 
@@ -55,7 +59,10 @@ theorem a2b_b64encode (v : Bytes) (out : Bytes) :
     simp only [b64encode, List.map_cons, List.map_nil]
     have : (61 : UInt8).toNat = 61 := rfl
     rw [this, a2b_tail3 out [] (a.toNat / 4) (a.toNat % 4 * 16 + b.toNat / 16) (b.toNat % 16 * 4) (by omega) (by omega) (by omega)]
-    rw [ofNat_of_toNat a _ (by omega), ofNat_of_toNat b _ (by omega)]
+    have e1 : UInt8.ofNat (a.toNat / 4 * 4 + (a.toNat % 4 * 16 + b.toNat / 16) / 16) = a := ofNat_of_toNat a _ (by omega)
+    have e2 : UInt8.ofNat ((a.toNat % 4 * 16 + b.toNat / 16) % 16 * 16 + b.toNat % 16 * 4 / 4) = b :=
+      ofNat_of_toNat b _ (by omega)
+    rw [e1, e2]
     simp
   | case4 a b c rest ih =>
     have hx : a.toNat < 256 := a.toNat_lt
@@ -64,8 +71,103 @@ theorem a2b_b64encode (v : Bytes) (out : Bytes) :
     simp only [b64encode, List.map_cons]
     rw [a2b_quad out _ (a.toNat / 4) (a.toNat % 4 * 16 + b.toNat / 16) (b.toNat % 16 * 4 + c.toNat / 64) (c.toNat % 64)
       (by omega) (by omega) (by omega) (by omega)]
-    rw [ofNat_of_toNat a _ (by omega), ofNat_of_toNat b _ (by omega), ofNat_of_toNat c _ (by omega)]
-    rw [ih]
+    have e1 : UInt8.ofNat (a.toNat / 4 * 4 + (a.toNat % 4 * 16 + b.toNat / 16) / 16) = a := ofNat_of_toNat a _ (by omega)
+    have e2 : UInt8.ofNat ((a.toNat % 4 * 16 + b.toNat / 16) % 16 * 16 + (b.toNat % 16 * 4 + c.toNat / 64) / 4) = b :=
+      ofNat_of_toNat b _ (by omega)
+    have e3 : UInt8.ofNat ((b.toNat % 16 * 4 + c.toNat / 64) % 4 * 64 + c.toNat % 64) = c := ofNat_of_toNat c _ (by omega)
+    rw [e1, e2, e3, ih]
     simp
+
+/-- every byte `b64encode` writes is an alphabet character or `=`: ASCII, and never white space -/
+def B64Byte (b : UInt8) : Prop := b.toNat < 128 ∧ isPySpace b.toNat = false
+
+theorem b64Char_ok (n : Nat) (h : n < 64) : B64Byte (b64Char n) := ⟨(b64_table n h).2.2, b64_table_space n h⟩
+
+theorem b64encode_bytes (v : Bytes) : ∀ b ∈ b64encode v, B64Byte b := by
+  have pad : B64Byte 61 := ⟨by decide, by decide⟩
+  induction v using b64encode.induct with
+  | case1 => intro b hb; simp [b64encode] at hb
+  | case2 a =>
+    have hx : a.toNat < 256 := a.toNat_lt
+    intro b hb
+    simp only [b64encode, List.mem_cons, List.not_mem_nil, or_false] at hb
+    rcases hb with rfl | rfl | rfl | rfl
+    · exact b64Char_ok _ (by omega)
+    · exact b64Char_ok _ (by omega)
+    · exact pad
+    · exact pad
+  | case3 a c =>
+    have hx : a.toNat < 256 := a.toNat_lt
+    have hy : c.toNat < 256 := c.toNat_lt
+    intro b hb
+    simp only [b64encode, List.mem_cons, List.not_mem_nil, or_false] at hb
+    rcases hb with rfl | rfl | rfl | rfl
+    · exact b64Char_ok _ (by omega)
+    · exact b64Char_ok _ (by omega)
+    · exact b64Char_ok _ (by omega)
+    · exact pad
+  | case4 a c d rest ih =>
+    have hx : a.toNat < 256 := a.toNat_lt
+    have hy : c.toNat < 256 := c.toNat_lt
+    have hz : d.toNat < 256 := d.toNat_lt
+    intro b hb
+    simp only [b64encode, List.mem_cons] at hb
+    rcases hb with rfl | rfl | rfl | rfl | hb
+    · exact b64Char_ok _ (by omega)
+    · exact b64Char_ok _ (by omega)
+    · exact b64Char_ok _ (by omega)
+    · exact b64Char_ok _ (by omega)
+    · exact ih b hb
+
+theorem b64encode_ne_nil (v : Bytes) (h : v ≠ []) : b64encode v ≠ [] := by
+  cases v with
+  | nil => exact absurd rfl h
+  | cons a t =>
+    cases t with
+    | nil => simp [b64encode]
+    | cons b t2 =>
+      cases t2 with
+      | nil => simp [b64encode]
+      | cons c t3 => simp [b64encode]
+
+/-- `base64.b64decode(base64.b64encode(v).decode()) == v` -/
+theorem b64decodeStr_b64encode (v : Bytes) : b64decodeStr ((b64encode v).map UInt8.toNat) = some v := by
+  unfold b64decodeStr
+  have hall : ((b64encode v).map UInt8.toNat).all (· < 128) = true := by
+    rw [List.all_eq_true]
+    intro x hx
+    rw [List.mem_map] at hx
+    obtain ⟨b, hb, rfl⟩ := hx
+    simpa using (b64encode_bytes v b hb).1
+  rw [if_pos hall, a2b_b64encode]
+  simp
+
+/-- ASCII bytes are valid UTF-8 and decode to themselves -/
+theorem utf8_ascii (l : Bytes) (h : ∀ b ∈ l, b.toNat < 128) : utf8Decode l = some (l.map UInt8.toNat) := by
+  unfold utf8Decode
+  induction l with
+  | nil => simp [utf8Loop]
+  | cons a rest ih =>
+    have ha := h a (by simp)
+    have := ih (fun b hb => h b (by simp [hb]))
+    simp [utf8Loop, ha, this]
+
+theorem splitFirstSpace_append (name rest : List Nat) (h : ∀ c ∈ name, c ≠ 32) :
+    splitFirstSpace (name ++ 32 :: rest) = some (name, rest) := by
+  induction name with
+  | nil => simp [splitFirstSpace]
+  | cons c cs ih =>
+    have hc := h c (by simp)
+    have := ih (fun x hx => h x (by simp [hx]))
+    simp [splitFirstSpace, hc, this]
+
+/-- a string that neither starts nor ends with white space is its own `strip()` -/
+theorem pyStrip_id (a : Nat) (m : List Nat) (z : Nat) (init : List Nat) (ha : isPySpace a = false) (hz : isPySpace z = false)
+    (hl : a :: m = init ++ [z]) : pyStrip (a :: m) = a :: m := by
+  unfold pyStrip
+  rw [List.dropWhile_cons_of_neg (by simp [ha]), hl, List.reverse_append]
+  simp only [List.reverse_cons, List.reverse_nil, List.nil_append, List.singleton_append]
+  rw [List.dropWhile_cons_of_neg (by simp [hz])]
+  simp
 
 end Tahoe.Http
